@@ -65,12 +65,13 @@ pub fn syms(o: &LayoutOracle, vals: &[&str]) -> Vec<Sym> {
     vals.iter().map(|v| sym(o, v)).collect()
 }
 
-/// Text a suggestions-off fixed context shows.
+/// The composed text a fixed-layout context shows: the single string, or - when the candidate list rides along as a
+/// bystander option - the first candidate, which is the composed text itself (C15 judges that).
 pub fn shown(s: &Suggestion) -> String {
     if s.is_lonely() {
         s.get_lonely_suggestion().to_string()
     } else {
-        format!("<list:{:?}>", s.get_suggestions())
+        s.get_suggestions().first().cloned().unwrap_or_default()
     }
 }
 
